@@ -4,12 +4,15 @@ go 1.25.0
 
 require (
 	github.com/cenkalti/backoff/v4 v4.3.0
+	github.com/go-faster/errors v0.8.0
 	github.com/gotd/ige v0.3.0
+	github.com/gotd/log v0.1.0
 	github.com/gotd/neo v0.1.5
 	github.com/gotd/td v0.0.0
 	github.com/klauspost/compress v1.19.1
 	go.uber.org/multierr v1.11.0
 	golang.org/x/crypto v0.54.0
+	golang.org/x/net v0.57.0
 )
 
 require (
@@ -17,10 +20,8 @@ require (
 	github.com/cespare/xxhash/v2 v2.3.0 // indirect
 	github.com/coder/websocket v1.8.15 // indirect
 	github.com/davecgh/go-spew v1.1.1 // indirect
-	github.com/go-faster/errors v0.8.0 // indirect
 	github.com/go-faster/jx v1.2.0 // indirect
 	github.com/go-faster/xor v1.0.0 // indirect
-	github.com/gotd/log v0.1.0 // indirect
 	github.com/pmezard/go-difflib v1.0.0 // indirect
 	github.com/refraction-networking/utls v1.8.2 // indirect
 	github.com/segmentio/asm v1.2.1 // indirect
@@ -29,7 +30,6 @@ require (
 	go.opentelemetry.io/otel v1.44.0 // indirect
 	go.opentelemetry.io/otel/trace v1.44.0 // indirect
 	go.uber.org/atomic v1.11.0 // indirect
-	golang.org/x/net v0.57.0 // indirect
 	golang.org/x/sync v0.22.0 // indirect
 	golang.org/x/sys v0.47.0 // indirect
 	gopkg.in/yaml.v3 v3.0.1 // indirect
